@@ -5,6 +5,7 @@ from lib import Case, hx, unhx, enc_attrs, enc_cfg, dec_attrs, doc_case
 import xmlcanon
 from scene import fmt, dy
 
+DOC_MODEL = True     # every generated document also runs through the composed Coq model of the whole transform
 RULE = ('(a) hook write_root_svg on random extents (dyadic, integer, arbitrary and special binary32 values) x root attribute '
         'subsets of {width, height, viewBox, version, xmlns, id, style} with units and malformed values x border x scale: '
         'attribute list compared as ordered text with the extracted Coq model; (b) whole documents of positioned shapes '
